@@ -117,6 +117,97 @@ class Kinds:
         return nf
 
 
+def indexed_params(prog, flows, body):
+    """{param index: guard} for parameters of `body` that it indexes directly (Index/IndexMut on the parameter's
+    pointee).  guard = None (unconditional) or the name of a bool parameter whose true edge dominates the site"""
+    fl = flows.of(body)
+    out = {}
+    for t in body.calls():
+        if not t.callee or t.callee.short not in panic.INDEXERS or not t.args or t.args[0].place is None:
+            continue
+        if not t.callee.args or not (t.callee.args[0].startswith("std::vec::Vec<") or t.callee.args[0].startswith("[")):
+            continue
+        for o in fl._operand_pts(t.args[0]):
+            if o[0] == "P" and not o[2] and 1 <= o[1] <= body.arg_count:
+                guard = None
+                for (bb, test, t_succ, f_succ) in bool_atoms(fl):
+                    if isinstance(test, tuple) and test[0] == "place" and test[1] in body.param_names() and panic.passes_true_edge(body, bb, t_succ, t.bb):
+                        guard = test[1]
+                prev = out.get(o[1], "unset")
+                if prev == "unset" or guard is None:
+                    out[o[1]] = guard
+    return out
+
+
+def rule6(ctx, prog, flows):
+    ctx.rule("R-C20-6", "a buffer that is sized only under a condition is indexed (here or in a callee it is handed to) only under that condition")
+    n = 0
+    for p in sorted(prog.bodies):
+        b = prog.bodies[p]
+        fl = flows.of(b)
+        for l in b.locals:
+            if not l["name"] or not l["ty"].startswith("std::vec::Vec<") or l["i"] <= b.arg_count:
+                continue
+            defs = b.assigns_to(l["i"])
+            if len(defs) < 2:
+                continue
+            sized = []
+            empty = []
+            for (dbb, d) in defs:
+                oc = d if getattr(d, "k", None) == "call" else (panic.origin_call(fl, d.rv.ops[0]) if getattr(d, "rv", None) is not None and d.rv.ops else None)
+                nm = oc.callee.short if oc is not None and oc.callee else ""
+                if nm.endswith("vec::from_elem") or nm.endswith("Vec::with_capacity") or nm.endswith("Vec::resize"):
+                    sized.append((dbb, d))
+                elif nm.endswith("Vec::new") or nm.endswith("Default::default"):
+                    empty.append((dbb, d))
+            if len(sized) != 1 or not empty:
+                continue
+            sbb = sized[0][0]
+            cond = None
+            for (bb, test, t_succ, f_succ) in bool_atoms(fl):
+                if isinstance(test, tuple) and test[0] == "place" and panic.passes_true_edge(b, bb, t_succ, sbb):
+                    cond = test[1]
+            if cond is None:
+                continue
+            n += 1
+            true_edges = [(bb, t_succ) for (bb, test, t_succ, f_succ) in bool_atoms(fl) if isinstance(test, tuple) and test == ("place", cond) and t_succ is not None]
+
+            def under_cond(site_bb):
+                return site_bb not in _reach_without_edges(b, true_edges)
+
+            V = ("L", l["i"])
+            bad = []
+            for t in b.calls():
+                if not t.callee or not t.args:
+                    continue
+                if t.callee.short in panic.INDEXERS and t.args[0].place is not None and V in fl._operand_pts(t.args[0]):
+                    if not under_cond(t.bb):
+                        bad.append(("indexed", t))
+                tp = t.callee.target_path(prog)
+                if tp:
+                    ip = indexed_params(prog, flows, prog.bodies[tp])
+                    for j, a in enumerate(t.args):
+                        if a.place is None or V not in fl._operand_pts(a) or (j + 1) not in ip:
+                            continue
+                        guard = ip[j + 1]
+                        cb = prog.bodies[tp]
+                        if guard is not None:
+                            # the callee indexes it only under its own bool parameter: that argument must be the condition itself
+                            gi = cb.param_names().index(guard) if guard in cb.param_names() else None
+                            ad = norm(fl.describe(t.args[gi], depth=6)) if gi is not None and gi < len(t.args) else None
+                            if ad == ("place", cond):
+                                continue
+                        if not under_cond(t.bb):
+                            bad.append(("handed to %s, which indexes it" % cb.short.split("::")[-1], t))
+            key = "%s|%s" % (b.short, l["name"])
+            if bad:
+                what, t = bad[0]
+                ctx.violation("R-C20-6", key, "`%s` in %s has its size only when `%s` is true (otherwise it is empty) but is %s on a path where `%s` may be false: index out of bounds panic" % (l["name"], b.short, cond, what, cond), loc_str(t.span))
+            else:
+                ctx.ok("R-C20-6", key, "`%s` in %s is sized under `%s` and every index use (incl. callees) is under `%s`" % (l["name"], b.short.split("::")[-1], cond, cond), loc_str(sized[0][1].span))
+    ctx.floor("R-C20-6", "conditionally_sized_buffers", n, 1)
+
+
 def enclosing_fn(prog, body):
     b = body
     while b.kind == "closure":
@@ -158,6 +249,7 @@ def run(ctx):
     rule2(ctx, prog, flows, kinds, all_sites, review, handled)
     rule3(ctx, prog, flows, all_sites, review, handled)
     rule4(ctx, prog, flows, all_sites, review, handled)
+    rule6(ctx, prog, flows)
     # R-C20-5: recursion inventory
     cg = prog.call_graph()
     rec = [c for c in prog.sccs(set(prog.bodies)) if len(c) > 1 or c[0] in cg.get(c[0], ())]
